@@ -39,7 +39,7 @@ func checkCiscoConv(p *Prog, r *Report, prop, flavour string) {
 	ruleExitsAudited(p, r, "R-X", prop, pk, 16)
 	ruleRegexpConsts(p, r, "R-RX", prop, 1)
 	ruleIdentityFirst(p, r, "R-IDF", prop, 16)
-	ruleMemo(p, r, "R-MEMO", prop, pk, 7)
+	ruleMemo(p, r, "R-MEMO", prop, pk, 6)
 	ruleBufferReuse(p, r, "R-REUSE", pk)
 	ruleLookupsAudited(p, r, "R-LK", prop, 5)
 	ruleRewriteDiscipline(p, r, "R-FLAG", prop, map[string]bool{"cisco": true}, 20)
